@@ -17,7 +17,7 @@ TEXT = {
  "C09": "frame obligations (no store to any pre-existing object / list / module container on any path) for every method under contract incl. add and default_prios, input-free; cache-key obligations; one known finding (D2); frames around readers/writers/solver routes incl. mutable default arguments; sequences of all public calls on models and configurators, probes on other objects against process-start answers and the configurator cache scenarios by bounded stand-ins",
  "C10": "key functions of errors() extracted from the source proved injective on definitions (all ids/bounds/signs/values/children) + Lean card_image_comp_iff; traversal and cycle check by bounded stand-in; the real errors() end to end on tree shapes with symbolic bounds/thresholds of repeated ids (accepted iff one definition), independent of the source text",
  "C11": "step functions and the small-shape fix-point loop proved for symbolic entries (bounded in shape); projection property end to end by bounded stand-in",
- "C12": "row_bounds exact, tighten_column_bounds sound and non-widening, n_row_combinations: proved for symbolic entries on shapes up to 2x2 (bounded in shape; float rounding not modelled); brute force up to 3x3 incl. large coefficients by bounded stand-in",
+ "C12": "row_bounds exact, tighten_column_bounds sound and non-widening, n_row_combinations: proved for symbolic entries on shapes up to 2x2 (row bounds, never-widen and counts up to 2x3; bounded in shape; float rounding not modelled); brute force up to 3x3 incl. large coefficients by bounded stand-in",
  "C13": "first/last/min/max, ranking, prio/rank and shadow (the latter over the executable form of the assumed contract A-rs2 of the compiled bit allocation) proved through the real Python code for symbolic entries on small shapes (1-D n<=3, 2-D up to 2x2 quick / 3x2 thorough, both axes); A-rs2 validated against the compiled function at run time; larger shapes, 3-D, >2^53 values and call sequences on one array by bounded stand-in",
  "C14": "cc.Any/cc.Xor restructuring around the default (truth function, -2 tag, partition) proved for any number of children; default_prios (tag or -1 per flattened node) and _vectors_from_prios (two-level stack handed to the shadow compression) proved; Lean dominance lemma; objective ranking end to end by bounded stand-in (weights from compiled code: A-rs2); the objective vector end to end through the real shadow compression over the executable A-rs2 model: sign, level and dominance structure proved for 2-3 columns with symbolic priorities",
  "C15": "solve/select/StingyConfigurator.select alignment of objectives, solutions and ids proved for symbolic weights/solutions on 1-3 columns; objective rows of _vectors_from_prios (weight at the named column, 0 elsewhere) proved; the built-in route (no callable) against an open contract of the compiled solver: every named id's statement gets its weight, every id is reported with its statement's value; recording and exact solvers on random models by bounded stand-in",
